@@ -37,7 +37,7 @@ import (
 	"github.com/dolthub/dolt/go/zzverif/vsql"
 )
 
-const c16Rule = "case = value kind (TEXT/BLOB/JSON) + 2-5 logical values (sizes 0, 1, around the 20-byte address size, every size in a window around the 2 KiB row target, 4 KiB / 16 KiB / 64 KiB +-1, up to 2 MiB quick / 8 MiB thorough; contents: random bytes, one repeated byte, multi-byte UTF-8, quotes/backslashes/NUL, JSON of random shape) + the way each value is produced (parameter, INSERT..SELECT, UPDATE from another column, CONCAT/REPEAT, JSON_OBJECT/JSON_SET, ALTER TABLE add/drop wide column) into two tables whose neighbouring column widths force different storage forms. Non-trivial = at least one logical value is stored inline in one table and out of band in the other (read from the row tuples in process) and the cross-table comparisons ran."
+const c16Rule = "case = value kind (TEXT/BLOB/JSON) + 2-5 logical values (sizes 0, 1, around the 20-byte address size, every size in a window around the 2 KiB row target, 4 KiB / 16 KiB / 64 KiB +-1, up to 2 MiB quick / 4 MiB thorough; contents: random bytes, one repeated byte, multi-byte UTF-8, quotes/backslashes/NUL, JSON of random shape) + the way each value is produced (parameter, INSERT..SELECT, UPDATE from another column, CONCAT/REPEAT, JSON_OBJECT/JSON_SET, ALTER TABLE add/drop wide column) into two tables whose neighbouring column widths force different storage forms. Non-trivial = at least one logical value is stored inline in one table and out of band in the other (read from the row tuples in process) and the cross-table comparisons ran."
 
 var c16Assumptions = []string{
 	"the client sends parameters interpolated as escaped literals (go-sql-driver InterpolateParams); binary values travel as _binary'...' literals",
@@ -45,7 +45,7 @@ var c16Assumptions = []string{
 	"JSON numbers are integers below 2^53 or short decimals; JSON object keys within one object are distinct",
 	"while finding " + c16FindCountDistinct + " is listed open, a COUNT(DISTINCT v) that fails (wrapper values, non-UTF-8 BLOBs, values over 64 KiB: all from the same conversion through types.Text) is skipped (counted as excluded_known; SELECT DISTINCT and GROUP BY still decide deduplication); the pinned sub-test reports it",
 	"the CONCAT/REPEAT producer is used for TEXT only: go-mysql-server types CONCAT/REPEAT over binary arguments as character strings and rejects non-UTF-8 bytes with 'Incorrect string value' before storing anything",
-	"equality is always decided with a nested-loop join (INNER_JOIN hint); while finding " + c16FindHashJoinBlob + " is listed open, a BLOB equality join planned as a hash join that returns a subset of the expected pairs is attributed to it (counted as excluded_known); the pinned sub-test reports it",
+	"equality is always decided with a nested-loop join (INNER_JOIN hint); while finding " + c16FindHashJoinBlob + " is listed open, a BLOB equality join forced to a hash join (HASH_JOIN hint) that returns a subset of the expected pairs is attributed to it (counted as excluded_known); the pinned sub-test reports it",
 	"the storage form is read in process from the row tuples (val.AdaptiveValue.IsOutOfBand) only to classify cases; no oracle depends on it",
 }
 
@@ -579,14 +579,15 @@ func TestVerif_C16_sql(t *testing.T) {
 			t.Errorf("%s", msg)
 		}
 	})
-	maxSize := vh.N(2<<20, 8<<20)
+	maxSize := vh.N(2<<20, 4<<20)
 	filler := strings.Repeat("f", 2040)
-	vh.Check(t, "sql", 30, 100, func(rt *rapid.T) {
+	vh.Check(t, "sql", 30, 25, func(rt *rapid.T) {
 		db := srv.NewDBName()
 		admin.MustExec(rt, "CREATE DATABASE "+db)
 		defer admin.Exec("DROP DATABASE " + db)
 		c := &c16Case{rt: rt, s: srv.Session(rt, "c16", db)}
 		defer c.s.Close()
+		_ = c.s.Exec("CALL dolt_stats_stop()")
 		c.kind = rapid.SampledFrom([]string{"text", "text", "blob", "blob", "json"}).Draw(rt, "kind")
 		nvals := rapid.IntRange(2, 5).Draw(rt, "nvals")
 		big := 0
@@ -803,13 +804,21 @@ func TestVerif_C16_sql(t *testing.T) {
 			if got := c16Pairs(r); got != strings.Join(eqPairs, " ") {
 				rt.Fatalf("C16: %s.v = %s.v pairs (INNER_JOIN hint): got %s want %s\n--- case ---\n%s", j[0], j[1], vsql.Show(r.Sorted()), vsql.Show(eqPairs), c.dump())
 			}
-			// the planner's choice (usually a hash join: equality through hash keys)
-			q := fmt.Sprintf("SELECT x.pk, y.pk FROM %s x JOIN %s y ON x.v = y.v", j[0], j[1])
+			// a hash join (HASH_JOIN hint): equality through hash keys
+			q := fmt.Sprintf("SELECT /*+ HASH_JOIN(x,y) */ x.pk, y.pk FROM %s x JOIN %s y ON x.v = y.v", j[0], j[1])
 			r = c.s.MustQuery(rt, q)
 			if got := c16Pairs(r); got != strings.Join(eqPairs, " ") {
 				known := false
+				planText := ""
+				if p, err := c.s.Query("EXPLAIN PLAN " + q); err == nil {
+					planText = strings.Join(p.Ordered(), " / ")
+				} else {
+					planText = "EXPLAIN failed: " + err.Error()
+				}
 				if c.kind == "blob" && vh.OpenFinding("C16", c16FindHashJoinBlob) {
-					if p, err := c.s.Query("EXPLAIN PLAN " + q); err == nil && strings.Contains(strings.Join(p.Ordered(), "\n"), "HashJoin") {
+					// the plan is forced by the hint; EXPLAIN is only shown in the message (a later
+					// EXPLAIN may pick another plan once the background statistics change)
+					{
 						want := map[string]bool{}
 						for _, e := range eqPairs {
 							want[e] = true
@@ -823,7 +832,7 @@ func TestVerif_C16_sql(t *testing.T) {
 					}
 				}
 				if !known {
-					rt.Fatalf("C16: %s.v = %s.v pairs: got %s want %s\n--- case ---\n%s", j[0], j[1], vsql.Show(r.Sorted()), vsql.Show(eqPairs), c.dump())
+					rt.Fatalf("C16: %s.v = %s.v pairs: got %s want %s\nplan: %s\nfinding open: %v\n--- case ---\n%s", j[0], j[1], vsql.Show(r.Sorted()), vsql.Show(eqPairs), planText, vh.OpenFinding("C16", c16FindHashJoinBlob), c.dump())
 				}
 				rec.Excluded(1)
 				rec.Class("known:"+c16FindHashJoinBlob, 1)
